@@ -34,11 +34,18 @@ Vocabulary (Model/Stream.lean, Proofs/StreamHandle.lean, Proofs/StreamCopy.lean)
                                everywhere else what `S0` holds
   `Visits srcv order`          `order` hands out exactly the nodes of `srcv` (C08's guarantee; `visits_of_perm`)
 
+  `Disc`, `Sys`, `readerRun cfg ws sizes s`, `streamCopyRW cfg pl sizes c ws s dst dp`   (Model/Stream.lean 10)
+                               ONE memory file, an open reader and a thread that rewrites the same file through
+                               `Writer(p)` / `Write`* / `Close`, interleaved by the schedule `ws` (how many steps
+                               of the rewriter before each action of the reader's thread); `cfg` = the locking
+                               discipline (`Disc.memfs` = the CURRENT code, `Disc.seeded` = snapshot + in-place)
+
 Trusted/assumed (also in checks/c04.py): `io.Copy` is modelled (stdlib contract); the AEAD of the encrypted
 filespace is opaque (enc∘X is X seen from the plain side); that the walk visits a permutation of the nodes
 and runs callbacks one at a time (`Consumers: 1`) is C08's theorem, taken as the hypothesis `Perm`.
 -/
 import Goat.Proofs.StreamOk
+import Goat.Proofs.StreamConc
 
 namespace Goat.C04
 
@@ -609,6 +616,157 @@ example : (copierDo noFault [1] 0 Calls.zero exSrc2 [[115], [100], [120]] ⟨.me
 -- neither file nor directory: refused; the destination view cannot be opened: reported
 example : (copierDo noFault [1] 0 Calls.zero exSrc2 [[122]] ⟨.mem, exDst⟩ [[103]] []).ok = false := by decide
 example : (copierDo (oneFault .dstView 0 .hard) [1] 0 Calls.zero exSrc2 [[115]] ⟨.mem, exDst⟩ [[116]] exOrder).ok = false := by
+  decide
+
+/-! ### 7. An open reader while the same file is rewritten -/
+
+/-- READER ISOLATED FROM A REWRITE.  One memory file holding `old` (in an array with any spare capacity
+`slack`); a reader's thread (`Reader(p)`, one `Read` per size, `Close`) and a rewriting thread (`Writer(p)`, one
+`Write` per chunk, `Close`) run under ANY schedule `ws` (any number of rewriter steps before the open, before
+every `Read`, before the `Close`; a thread that needs the lock waits), for EVERY discipline but snapshot +
+in-place truncation — in particular the current memfs `Disc.memfs` (handles hold the file's lock from open to
+Close) and `Disc.priv` (the decrypting reader, a cache reader of a remote file).  Then
+  * what the reader delivers is exactly what a private sequential reader of `atOpen` — the content the file
+    had when the reader was opened — delivers for the same buffer sizes (as `sizes` is arbitrary this holds at
+    every point between open and Close): a prefix of that content, all of it once `io.EOF` has been reported;
+  * that content is the old one or the chunks' concatenation, whole (never a mix), and the old one when the
+    reader was opened before the rewriter made its first step;
+  * nobody hangs, and after both have closed the file holds exactly the chunks' concatenation. -/
+theorem reader_isolated_from_rewrite (cfg : Disc) (hsafe : cfg.safe = true) (old slack : Bytes)
+    (chunks : List Bytes) (sizes ws : List Nat) :
+    let r := readerRun cfg ws sizes (Sys.init old slack chunks)
+    (r.atOpen = old ∨ r.atOpen = chunks.flatten)
+    ∧ (ws.headD 0 = 0 → r.atOpen = old)
+    ∧ r.out = (RHandle.open .eager r.atOpen).reads sizes
+    ∧ delivered r.out <+: r.atOpen
+    ∧ ((∀ n ∈ sizes, 0 < n) → (∃ x ∈ r.out, x.2 = true) → delivered r.out = r.atOpen)
+    ∧ r.fin.cell.content = chunks.flatten ∧ r.fin.phase = .closed ∧ r.fin.cell.locked = false ∧ r.fin.rd = none := by
+  intro r
+  obtain ⟨h1, h2, h3, h4⟩ := readerRun_spec cfg hsafe old slack chunks sizes ws
+  refine ⟨h1, h2, h3, ?_, ?_, h4⟩
+  · rw [h3, reads_eq sizes _ (open_ok _ _)]; exact delivered_prefix .eager sizes _
+  · intro hpos heof
+    rw [h3] at heof ⊢
+    exact (reader_exact .eager _ sizes hpos).2.1 heof
+
+/-- THE WRITER WAITS (the code's discipline, `cfg.rd = lock`: `NewFileHandler` takes `dataMU.Lock()`, `Close`
+gives it back).  A reader opened before the rewriter's first step keeps the rewriter before its open until the
+reader's `Close`, whatever the schedule: just before that `Close` the rewriter has not truncated or written
+anything — the file still holds `old` and all chunks are still to be written. -/
+theorem writer_waits_for_open_reader (cfg : Disc) (hlock : cfg.rd = .lock) (old slack : Bytes) (chunks : List Bytes)
+    (sizes ws : List Nat) (hfirst : ws.headD 0 = 0) :
+    let r := readerRun cfg ws sizes (Sys.init old slack chunks)
+    r.atOpen = old ∧ r.beforeClose.phase = .idle ∧ r.beforeClose.cell.content = old ∧ r.beforeClose.todo = chunks :=
+  readerRun_writer_waits cfg hlock old slack chunks sizes ws hfirst
+
+/-- the discipline of the current code, of the private-copy readers, and each half of the seeded change alone
+are covered by the theorem; the seeded combination is not -/
+example : Disc.memfs.safe = true ∧ Disc.priv.safe = true ∧ (Disc.mk .alias .fresh).safe = true
+    ∧ (Disc.mk .lock .inPlace).safe = true ∧ (Disc.mk .copy .inPlace).safe = true ∧ Disc.seeded.safe = false := by decide
+
+-- the hypotheses of `writer_waits_for_open_reader` hold for the current memfs and the schedules used below
+example : Disc.memfs.rd = .lock ∧ ([0, 0, 50] : List Nat).headD 0 = 0 := ⟨rfl, rfl⟩
+example : (readerRun Disc.memfs [0, 0, 50] [2, 2, 7] (Sys.init [1, 2, 3, 4, 5, 6] [] [[7, 8], [9]])).beforeClose.todo = [[7, 8], [9]] := by
+  decide
+-- the interleaving `open reader; read 1 buffer; (other thread) Writer … ; read the rest; Close`: under the
+-- code's discipline the rewriter's 50 attempted steps change nothing, the reader delivers the old bytes, and
+-- afterwards the file holds the new ones
+example : (readerRun Disc.memfs [0, 0, 50] [2, 2, 7] (Sys.init [1, 2, 3, 4, 5, 6] [] [[7, 8], [9]])).out
+    = [([1, 2], false), ([3, 4], false), ([5, 6], true)] := by decide
+example : (readerRun Disc.memfs [0, 0, 50] [2, 2, 7] (Sys.init [1, 2, 3, 4, 5, 6] [] [[7, 8], [9]])).beforeClose.phase = .idle := by
+  decide
+example : (readerRun Disc.memfs [0, 0, 50] [2, 2, 7] (Sys.init [1, 2, 3, 4, 5, 6] [] [[7, 8], [9]])).fin.cell.content = [7, 8, 9] := by
+  decide
+-- a private-copy reader does not hold the rewriter up (it has finished before the reader closes): same bytes
+example : (readerRun Disc.priv [0, 0, 50] [2, 2, 7] (Sys.init [1, 2, 3, 4, 5, 6] [] [[7, 8], [9]])).out
+    = [([1, 2], false), ([3, 4], false), ([5, 6], true)]
+    ∧ (readerRun Disc.priv [0, 0, 50] [2, 2, 7] (Sys.init [1, 2, 3, 4, 5, 6] [] [[7, 8], [9]])).beforeClose.phase = .closed := by
+  decide
+-- each half of the seeded change alone, same schedule: the old bytes
+example : (readerRun ⟨.alias, .fresh⟩ [0, 0, 50] [2, 2, 7] (Sys.init [1, 2, 3, 4, 5, 6] [] [[7, 8], [9]])).out
+    = [([1, 2], false), ([3, 4], false), ([5, 6], true)] := by decide
+example : (readerRun ⟨.lock, .inPlace⟩ [0, 0, 50] [2, 2, 7] (Sys.init [1, 2, 3, 4, 5, 6] [] [[7, 8], [9]])).out
+    = [([1, 2], false), ([3, 4], false), ([5, 6], true)] := by decide
+-- the rewriter has opened first (one step): the reader waits for its Close and reads the new content, whole
+example : (readerRun Disc.memfs [1] [2, 2] (Sys.init [1, 2, 3, 4, 5, 6] [] [[7, 8], [9]])).out
+    = [([7, 8], false), ([9], true)]
+    ∧ (readerRun Disc.memfs [1] [2, 2] (Sys.init [1, 2, 3, 4, 5, 6] [] [[7, 8], [9]])).atOpen = [7, 8, 9] := by decide
+-- a rewrite that outgrows the old array (spare capacity 1): the same
+example : (readerRun Disc.memfs [0, 0, 3, 9] [2, 2, 7] (Sys.init [1, 2, 3] [0] [[7, 8], [9, 9, 9]])).out
+    = [([1, 2], false), ([3], true), ([], true)]
+    ∧ (readerRun Disc.memfs [0, 0, 3, 9] [2, 2, 7] (Sys.init [1, 2, 3] [0] [[7, 8], [9, 9, 9]])).fin.cell.content
+      = [7, 8, 9, 9, 9] := by decide
+
+/-- STREAMCOPY WHOSE SOURCE IS REWRITTEN WHILE IT RUNS.  `fshelper.StreamCopy` from a memory file that another
+thread rewrites (`Writer`, chunks, `Close`) under ANY schedule, ANY fault plan and chunking, any destination,
+for every discipline but snapshot + in-place truncation: the helper's outcome — verdict, calls made,
+destination — is EXACTLY that of the sequential `StreamCopy` (`streamCopy2`, the subject of
+`streamCopy_ok_complete`) from a source holding `d`, where `d` is the old content or the chunks' concatenation,
+whole (the old one if the copy's reader was opened before the rewriter's first step).  So it copies the old
+content completely or the new content completely — never a mix — or reports an error; and the rewrite itself
+is intact: afterwards the source holds the chunks' concatenation and nobody hangs. -/
+theorem streamCopy_source_rewritten (cfg : Disc) (hsafe : cfg.safe = true) (pl : Plan) (sizes : List Nat) (c : Calls)
+    (ws : List Nat) (old slack : Bytes) (chunks : List Bytes) (S : State) (sp : Path) (dst : Dest) (dp : Path) :
+    let o := streamCopyRW cfg pl sizes c ws (Sys.init old slack chunks) dst dp
+    (∃ d, (d = old ∨ d = chunks.flatten) ∧ (ws.headD 0 = 0 → d = old)
+        ∧ o.1 = streamCopy2 pl sizes c ⟨.eager, put S sp d, false⟩ sp dst dp
+        ∧ (o.1.ok = true → o.1.dst.st dp = some (.file d)))
+    ∧ o.2.cell.content = chunks.flatten ∧ o.2.phase = .closed ∧ o.2.cell.locked = false ∧ o.2.rd = none := by
+  intro o
+  obtain ⟨d, hd, hfirst, heq, hfin⟩ := streamCopyRW_spec cfg hsafe pl sizes c ws old slack chunks S sp dst dp
+  refine ⟨⟨d, hd, hfirst, heq, ?_⟩, hfin⟩
+  intro hok
+  have hok' : (streamCopy2 pl sizes c ⟨.eager, put S sp d, false⟩ sp dst dp).ok = true := by rw [← heq]; exact hok
+  obtain ⟨d', hs, _, _, hst⟩ := streamCopy2_ok pl sizes c _ sp dst dp hok'
+  have hdd : d' = d := by
+    have : put S sp d sp = some (.file d') := hs
+    rw [put_same] at this
+    simpa using this.symm
+  show (streamCopyRW cfg pl sizes c ws (Sys.init old slack chunks) dst dp).1.dst.st dp = _
+  rw [heq, hst, put_same, hdd]
+
+/-- a destination with only its root -/
+def rootOnly : State := fun q => if q = [] then some .dir else none
+
+-- the copy's reader has delivered one buffer when the rewriter tries: under the code's discipline the copy is the
+-- old content, complete, and the source ends up with the new one
+example : (streamCopyRW Disc.memfs noFault [2] Calls.zero [0, 0, 50] (Sys.init [1, 2, 3, 4, 5, 6] [] [[7, 8], [9]])
+      ⟨.mem, rootOnly⟩ [[102]]).1.ok = true
+    ∧ (streamCopyRW Disc.memfs noFault [2] Calls.zero [0, 0, 50] (Sys.init [1, 2, 3, 4, 5, 6] [] [[7, 8], [9]])
+      ⟨.mem, rootOnly⟩ [[102]]).1.dst.st [[102]] = some (.file [1, 2, 3, 4, 5, 6])
+    ∧ (streamCopyRW Disc.memfs noFault [2] Calls.zero [0, 0, 50] (Sys.init [1, 2, 3, 4, 5, 6] [] [[7, 8], [9]])
+      ⟨.mem, rootOnly⟩ [[102]]).2.cell.content = [7, 8, 9] := by decide
+-- the rewriter was first: the new content, complete; a failing second Read: reported
+example : (streamCopyRW Disc.memfs noFault [2] Calls.zero [1] (Sys.init [1, 2, 3, 4, 5, 6] [] [[7, 8], [9]])
+      ⟨.disk, rootOnly⟩ [[102]]).1.dst.st [[102]] = some (.file [7, 8, 9]) := by decide
+example : (streamCopyRW Disc.memfs (oneFault .read 1 .hard) [2] Calls.zero [0, 0, 50]
+      (Sys.init [1, 2, 3, 4, 5, 6] [] [[7, 8], [9]]) ⟨.mem, rootOnly⟩ [[102]]).1.ok = false := by decide
+
+/-- SNAPSHOT + TRUNCATION IN PLACE MIXES (the seeded change C04-5, `Disc.seeded`: `Reader` keeps the slice
+header `file.data` and lets go of the lock, `Writer` truncates with `file.data[:0]`).  Explicit witness: a file
+of six bytes, a reader that has not read anything yet when the rewrite `78 | 9` happens, then reads on: it was
+opened on the old content, reports `io.EOF`, and what it delivered is the new bytes followed by the old tail —
+a prefix of neither the old nor the new content, bytes that were never the file's content.  `StreamCopy` under
+the same schedule returns nil with a destination that is neither the old nor the new source, while the source
+itself holds the new content. -/
+theorem snapshot_truncate_in_place_mixes :
+    ∃ (old : Bytes) (chunks : List Bytes) (sizes ws : List Nat),
+      (let r := readerRun Disc.seeded ws sizes (Sys.init old [] chunks)
+       r.atOpen = old ∧ (∃ x ∈ r.out, x.2 = true)
+       ∧ ¬ delivered r.out <+: old ∧ ¬ delivered r.out <+: chunks.flatten
+       ∧ delivered r.out = chunks.flatten ++ old.drop chunks.flatten.length
+       ∧ r.fin.cell.content = chunks.flatten)
+      ∧ (let o := streamCopyRW Disc.seeded noFault sizes Calls.zero ws (Sys.init old [] chunks) ⟨.mem, rootOnly⟩ [[102]]
+         o.1.ok = true ∧ o.1.dst.st [[102]] ≠ some (.file old) ∧ o.1.dst.st [[102]] ≠ some (.file chunks.flatten)
+         ∧ o.1.dst.st [[102]] = some (.file (chunks.flatten ++ old.drop chunks.flatten.length))
+         ∧ o.2.cell.content = chunks.flatten) :=
+  ⟨[1, 2, 3, 4, 5, 6], [[7, 8], [9]], [2, 2, 2], [0, 50], by decide⟩
+
+-- the same with the reader in the middle of the file when the rewrite happens: old head, new middle, old tail
+example : delivered (readerRun Disc.seeded [0, 0, 50] [2, 2, 7] (Sys.init [1, 2, 3, 4, 5, 6] [] [[7, 8], [9]])).out
+    = [1, 2, 9, 4, 5, 6] := by decide
+-- a rewrite that does not fit into the old array is not seen by the snapshot (the first chunk is: it fits)
+example : delivered (readerRun Disc.seeded [0, 50] [7] (Sys.init [1, 2, 3] [] [[7, 8], [9, 9]])).out = [7, 8, 3] := by
   decide
 
 end Goat.C04
